@@ -2,6 +2,7 @@
 
 from __future__ import annotations
 
+import builtins
 import keyword
 import logging
 from dataclasses import dataclass, field
@@ -188,7 +189,13 @@ def _register_fn(
     Components that use one function with other argument names share a definition;
     different functions that happen to have the same name get a numbered one.
     """
-    if fn_name in _RESERVED_NAMES or keyword.iskeyword(fn_name):
+    # A definition called max, min, abs, ... would shadow the builtin that the emitted
+    # expressions call
+    if (
+        fn_name in _RESERVED_NAMES
+        or keyword.iskeyword(fn_name)
+        or hasattr(builtins, fn_name)
+    ):
         fn_name = f"{fn_name}_fn"
     name, n = fn_name, 1
     while (existing := functions.get(name)) is not None and not _same_function(
